@@ -32,14 +32,15 @@ CLAIMS = {
  'C04': ("PARTIAL. Theorems in Purr/Props/C04.lean: completeness on the writer's image — every protocol-conformant non-empty history (any nesting, dots in branches, any ring numbers and bond kinds, every atom kind with every "
          "bracket-field combination) is spelled by the writer as a string the reader accepts (corollary of T-wr, C09); every accepted string has a conformant non-empty history whose normal-form text is accepted again and replays the same "
          "events; the verdict is never a panic; token languages are characterised by C07. The verdict's independence of the follower is structural in the model (read returns the events) and is checked of the code by running every string "
-         "through four followers. NOT a theorem yet: accepts_iff_grammar against an independent character-level grammar (non-canonical spellings); that equivalence is decided on every run against the harness's reference recogniser "
+         "through four followers. The documented grammar is a formal object: Spec.classify (Purr/Spec/Automaton.lean), total (grammar_total). NOT a theorem yet: (read s).2 = ok iff Spec.classify s = ok for every string (non-canonical spellings); that equivalence, verdict and cursor, is decided on every run by field G (real reader against Spec.classify executed by the Lean driver) and against the harness's reference recogniser "
          "(written from the grammar, periodic table transcribed independently) on bounded-exhaustive string sets and exhaustive token families — declared as correspondence support, not proof.",
          "Lean 4 proof of completeness on canonical spellings and closure under normalisation (via T-wr) + differential comparison with an independent reference recogniser", "4.4"),
  'C05': ("PARTIAL. Theorems in Purr/Props/C05.lean: the failing remainder reported by the reader is a suffix of the input for every string (by induction over the reader transducer using shape lemmas for every token reader), hence "
-         "Character(i) always has i < |s| and the input from i on is exactly where the reader stopped; EndOfLine is reported exactly when the reader stopped at the end of the input; the verdict is never a panic. NOT theorems yet: "
-         "'the prefix before the cursor is viable and the prefix including it is not' (truncation/extension/completion lemmas). That is decided on every run by comparing every refused string's verdict with the reference recogniser "
-         "(a deterministic automaton all of whose states are completable) and by brute-force completion of the prefix before the cursor.",
-         "Lean 4 proof that reported cursors lie inside the input (suffix invariant over the reader) + differential comparison of cursors with a reference prefix recogniser", "4.5"),
+         "Character(i) always has i < |s| and the input from i on is exactly where the reader stopped; EndOfLine is reported exactly when the reader stopped at the end of the input; the verdict is never a panic. About the documented grammar Spec.classify (a character-level automaton in Lean, Purr/Spec/Automaton.lean, written from the property text and independent token tables): grammar_cursor_first_offending — its Character(i) is exactly the first offending character: "
+         "the first i characters can be completed to a sentence (explicit completion of every reachable configuration) and the first i+1 cannot, whatever follows; grammar_eol_viable_incomplete — EndOfLine exactly for viable but incomplete inputs. "
+         "NOT a theorem yet: reader verdict and cursor = Spec.classify for every string; decided on every run by field G (the real reader against Spec.classify executed by the Lean driver on all strings up to a length bound, every token family and its one-character corruptions incl. multi-byte) "
+         "and by the harness's own reference recogniser with brute-force completion.",
+         "Lean 4 proof that reported cursors lie inside the input and that the Lean grammar automaton's cursor is the first offending character + differential comparison of the reader's verdict and cursor with that automaton", "4.5"),
  'C06': ("Theorems in Purr/Props/C06.lean: every expect/unreachable!/overflow site of the code is an explicit panic outcome of the model, and the theorems show them unreachable: "
          "reading any string never reaches a panic site of the token readers or of read (read_no_panic, by induction over the reader transducer); the string writer never panics on the events "
          "of the reader or of the traversal of any adjacency list (via C08); hydrogen queries cannot overflow (subvalence <= 6, hydrogens <= 9 for any degree). Termination of every model function is "
